@@ -646,6 +646,28 @@ def check_box_guards(ctx):
                    sig="guard:%s:shared" % cname)
 
 
+def check_slash_equality(ctx):
+    """R18.5: the guards of the rule boxes and the composition of derivations compare slash types with ==: Over / Under are equal exactly when both parts are"""
+    m = ctx.model
+    for cname in ("Over", "Under"):
+        c = m.cls("discopy.biclosed." + cname)
+        fn = c.methods.get("__eq__")
+        ctx.need(fn is not None, "biclosed.%s has no __eq__" % cname)
+        fn = fn[0]
+        s_, o_ = fn.args.args[0].arg, fn.args.args[1].arg
+        g = CFG(fn)
+        rets = [r for r in ast.walk(fn) if isinstance(r, ast.Return)]
+        main = [r for r in rets if not (isinstance(r.value, ast.Constant) and r.value.value is False)]
+        ctx.need(len(main) == 1, "biclosed.%s.__eq__ has not exactly one comparing return" % cname)
+        guarded = any(lab == "T" and shape.key(shape.rename(st.test, {o_: "other"})) == shape.key(shape.parse("not isinstance(other, %s)" % cname)) for st, lab, how in g.raising_guards_before(main[0]))
+        ctx.ob("R18.5", "discopy.biclosed.%s.__eq__:kind" % cname, guarded, found=[ast.unparse(st.test) for st, lab, how in g.raising_guards_before(main[0])], required="only another %s type can be equal" % cname,
+               mod="discopy.biclosed", node=fn, sig="slash-eq-kind:" + cname)
+        shape.match(ctx, "R18.5", "discopy.biclosed.%s.__eq__" % cname, main[0].value, "self.left == other.left and self.right == other.right", {s_: "self", o_: "other"}, mod="discopy.biclosed", node=main[0],
+                    sig="slash-eq:" + cname, required="both the result and the argument type are compared, each of self with that of other")
+        ctx.ob("R18.5", "discopy.biclosed.%s:hash" % cname, "__hash__" in c.methods, found=sorted(k for k in c.methods if k in ("__eq__", "__hash__")), required="hashable (functor keys)", mod="discopy.biclosed", node=c.node,
+               sig="slash-hash:" + cname, trivial=True)
+
+
 def check(ctx):
     ctx.rule("R18.1", "type preservation: the rigid method called by biclosed.Functor with the arguments it routes has dom/cod equal to the image of the biclosed box's dom/cod, in every emptiness case")
     ctx.rule("R18.2", "eager_parse: words first in order; cups only between adjacent adjoints; the layer's slices partition the scan; returns only under cod == target")
@@ -657,7 +679,12 @@ def check(ctx):
     check_ccg(ctx)
     ctx.rule("R18.5", "the biclosed rule boxes refuse operands that are not slash types of the required direction or do not share their middle type")
     check_box_guards(ctx)
-    ctx.floor("R18.5", 14)
+    check_slash_equality(ctx)
+    ctx.rule("R18.6", "what the front-ends rely on: equality of rigid objects / types (C03), swaps for the crossed compositions (C10)")
+    ctx.depend("R18.6", "C03", "parsers return only when cod == target and derivations compose only when types are equal: equality of rigid objects and types is structural (name and winding number)",
+               rules={"R03.1", "R03.2"}, constructs=["discopy.rigid.Ob", "discopy.rigid.Ty", "discopy.monoidal.Ty", "discopy.cat.Ob"], mod="discopy.rigid")
+    ctx.depend("R18.6", "C10", "crossed compositions are translated with Diagram.swap, also for empty argument types", mod="discopy.monoidal")
+    ctx.floor("R18.5", 20)
     ctx.floor("R18.1", 20)
     ctx.floor("R18.2", 7)
     ctx.floor("R18.3", 6)
